@@ -378,10 +378,10 @@ def run_property(pid, tier, seed, units, quiet=False):
     # ---- bounded stand-in (a unit is undecided) / search for a failing input (an obligation is refuted)
     input_findings = [k for k in known if k['property'] == pid and k.get('input')]
     standin = None
-    explore = tier == 'thorough' and not (undecided or violations) and not os.environ.get('VERIF_EVIDENCE_DIR')
+    explore = not (undecided or violations) and not os.environ.get('VERIF_NO_EXPLORE')
     if undecided or violations or explore:
-        # the thorough tier always adds the bounded exploration, with a fixed internal seed (the deciding step stays the verifier)
-        standin = run_witness(pid, tier, (EXPLORE_SEED if explore else seed), {k['input'] for k in known if k.get('input')})
+        # every run adds the bounded exploration, with a fixed internal seed per tier (the deciding step stays the verifier)
+        standin = run_witness(pid, tier, (EXPLORE_SEED[tier if tier in EXPLORE_SEED else 'quick'] if explore else seed), {k['input'] for k in known if k.get('input')})
     # ---- evidence
     n_fn = sum(len(ur['fn_results']) for ur in results)
     n_ok = sum(1 for ur in results for v in ur['fn_results'].values() if v['success'])
@@ -423,8 +423,8 @@ def run_property(pid, tier, seed, units, quiet=False):
                         'and metamorphic relations, see vlib/witness.py', 'explored': (standin or {}).get('explored'),
                 'error': (standin or {}).get('error'), 'failures_for_this_property': len((standin or {}).get('failures', []))}),
             'bounded_exploration': (None if not explore else {
-                'label': 'bounded', 'never_counted_as_proved': True, 'seed': EXPLORE_SEED,
-                'what': 'thorough tier only: differential exploration of the public API (vlib/witness.py) in addition to the proof', 'explored': (standin or {}).get('explored'),
+                'label': 'bounded', 'never_counted_as_proved': True, 'seed': EXPLORE_SEED.get(tier, 0),
+                'what': 'differential exploration of the public API (vlib/witness.py) in addition to the proof; fixed internal seed per tier', 'explored': (standin or {}).get('explored'),
                 'error': (standin or {}).get('error'), 'failures_for_this_property': len((standin or {}).get('failures', []))}),
             'witness_search': (None if not violations else {'explored': (standin or {}).get('explored'), 'error': (standin or {}).get('error'),
                                                              'failing_inputs_found': len((standin or {}).get('failures', []))}),
@@ -486,7 +486,7 @@ def run_property(pid, tier, seed, units, quiet=False):
             shown.add(f['what'])
             path = os.path.join(d, 'bounded_exploration_%d.txt' % len(shown))
             with open(path, 'w', encoding='utf-8') as fh:
-                fh.write('BOUNDED EXPLORATION (thorough tier; not a proof obligation)\n' + _w.replay_text(f))
+                fh.write('BOUNDED EXPLORATION (not a proof obligation)\n' + _w.replay_text(f))
             print(f'VIOLATION property={pid} replay={path} obligation=bounded-exploration:{f["pid"]} pattern={json.dumps(f["pattern"])} '
                   f'flags={json.dumps(f["flags"])} input={json.dumps(f["input"])} expected={json.dumps(f["expected"][:120])} actual={json.dumps(f["actual"][:120])}')
         rc = 1
@@ -549,7 +549,7 @@ def selftest(pid, seed):
     return rows
 
 
-EXPLORE_SEED = 11
+EXPLORE_SEED = {'quick': 0, 'thorough': 11}
 
 
 def run_witness(pid, tier, seed, known_inputs):
